@@ -163,3 +163,26 @@ void h_frame_coder(void)
       __CPROVER_assert(st->nb_no_activity_ms_Q1 >= 0 && st->nb_no_activity_ms_Q1 <= 1200, "counter range is kept");
    }
 }
+
+/* C20 "the in-DTX query is true on every DTX packet": which detector answers OPUS_GET_IN_DTX.  DTX packets come from the speech
+   layer's own detector whenever it is switched on and the last frame used the speech layer (SILK-only or hybrid), and from the
+   generalised detector (decide_dtx_mode, C20 groups above: "DTX packet => counter past the 200 ms mark") otherwise; the query has to
+   consult the detector that is in charge.  Real opus_encoder_ctl, symbolic encoder and SILK state; loop-free. */
+void h_get_in_dtx(void)
+{
+   enc_block blk; OpusEncoder *st = &blk.e; opus_int32 v = nondet_int(); int ret, silk_says, s0, s1;
+   __CPROVER_assume(st->silk_enc_offset == (int)((char *)&blk.silk - (char *)&blk) && st->celt_enc_offset == (int)((char *)blk.celt - (char *)&blk));
+   __CPROVER_assume(st->silk_mode.nChannelsInternal == 1 || st->silk_mode.nChannelsInternal == 2);
+   s0 = blk.silk.state_Fxx[0].sCmn.noSpeechCounter >= NB_SPEECH_FRAMES_BEFORE_DTX; s1 = blk.silk.state_Fxx[1].sCmn.noSpeechCounter >= NB_SPEECH_FRAMES_BEFORE_DTX;
+   silk_says = s0 && ((st->silk_mode.nChannelsInternal == 2 && blk.silk.prev_decode_only_middle == 0) ? s1 : 1);
+   ret = opus_encoder_ctl(st, OPUS_GET_IN_DTX_REQUEST, &v);
+   __CPROVER_assert(ret == OPUS_OK, "OPUS_GET_IN_DTX succeeds");
+   if (st->silk_mode.useDTX && (st->prev_mode == MODE_SILK_ONLY || st->prev_mode == MODE_HYBRID)) {
+      CANARY("speech-layer detector in charge");
+      __CPROVER_assert(v == silk_says, "speech layer's DTX on and last frame SILK-only or hybrid: the query reports the speech layer's detector (both channels when both are coded)");
+   } else if (st->use_dtx) {
+      CANARY("generalised detector in charge");
+      __CPROVER_assert(v == (st->nb_no_activity_ms_Q1 >= 400), "generalised DTX: the query is true exactly when the no-activity counter is at or past the 200 ms mark");
+   } else __CPROVER_assert(v == 0, "DTX disabled: the query is false");
+   __CPROVER_assert(opus_encoder_ctl(st, OPUS_GET_IN_DTX_REQUEST, (opus_int32 *)NULL) == OPUS_BAD_ARG, "null pointer rejected");
+}
